@@ -127,6 +127,15 @@ def ssum_const_axiom():
         ssum(arr, n) == z3.ToReal(n) * arr[0]), patterns=[ssum(arr, n)])]
 
 
+def ssum_succ_axiom():
+    """Lean: ssum_succ, universally closed (pattern: ssum(a, n + 1))"""
+    USED.add('ssum_succ')
+    a = z3.Const('ssa!a', z3.ArraySort(z3.IntSort(), z3.RealSort()))
+    n = z3.Int('ssa!n')
+    return [z3.ForAll([a, n], z3.Implies(n >= 0, ssum(a, n + 1) == ssum(a, n) + a[n]), patterns=[ssum(a, n + 1)]),
+            z3.ForAll([a], ssum(a, z3.IntVal(0)) == 0, patterns=[ssum(a, z3.IntVal(0))])]
+
+
 def ssum_congr(a1, a2, n):
     """Lean: ssum_congr"""
     USED.add('ssum_congr')
